@@ -595,6 +595,11 @@ def signature(clause, rec, case):
         sig["second_application_adds"] = rec.get("idem_delta", "")
     if clause == "ApplyFails":
         sig["err"] = rec["err"][:80]
+        if ("Could not resolve a unique qualified name" in rec["err"] and "posonly_then_kwonly_params" in case["features"]
+                and "f3" in case["traced"]):
+            # the same libcst limitation (names in positional-only / keyword-only annotations are not re-qualified) when the
+            # bare name is bound to another class in the source: libcst gives up on the whole module
+            sig = {"clause": clause, "posonly_or_kwonly_annotation_name_clash": True}
     return sig
 
 
